@@ -825,9 +825,11 @@ def eval_il(setup, msgs, res):
             last_state = toks[-1].partition("|")[2] if toks else ""
             if end != "open":
                 viol.append("%s: connection %s" % (what, end))
-            elif last_state != "00:0:0":
-                viol.append("%s: behind the message the connection is not back in its initial state (is_fragmented, is_frag_compressed : "
-                            "frag_opcode : avail_in = %s): fragments are left in the reassembly buffer" % (what, last_state))
+            elif not re.match(r"0[01]:\d+:0$", last_state):
+                # (is_frag_compressed and frag_opcode are compared with the model; a stale value shows in the messages that follow)
+                viol.append("%s: behind the message the connection is not ready for the next one (is_fragmented, is_frag_compressed : "
+                            "frag_opcode : avail_in = %s): a message is still open or fragments are left in the reassembly buffer"
+                            % (what, last_state))
             st["ctl_between"] = st.get("ctl_between", 0) + sum(1 for pos, kk, _ in m["ctl"] if 0 < pos < n)
             if m["k"] in "tb" and n > 1 and any(0 < pos < n for pos, kk, _ in m["ctl"]):
                 st["compressed_fragmented_with_ctl_between"] = st.get("compressed_fragmented_with_ctl_between", 0) + 1
